@@ -385,7 +385,8 @@ func runEdgeTemplates(res *Result) {
 		`{% ctx z = user.Finance.History %}{%= z %}`, `{% ctx z = user|default(1) %}{%= z %}`, `{% ctx z, ok = nosuch|default(user) %}{%= ok %}`,
 		`{% for _, h := range user %}x{% endfor %}`, `{% for _, h := range user.Id %}x{% endfor %}`, `{% for k, v := range user.Flags %}{%= k %}={%= v %};{% endfor %}`, `{% for k := range user.Name %}{%= k %}{% endfor %}`,
 		`{% include %}`, `{% include a b c d e %}`, `{% . %}`, `{% if v, ok := vok().(static); ok %}a{% endif %}`, `{% if v, ok := vok(user).(static); !ok %}a{% endif %}`, `{% if v, ok := nohelper(user.Id).(static); ok %}a{% endif %}`,
-		`{% if v, ok := vok(user.Id).(nosuchins); ok %}a{% endif %}`, `{% if v, ok := vok(user.Id); ok %}a{% endif %}`,
+		`{% if v, ok := vok(user.Id).(nosuchins); ok %}a{% endif %}`, `{% if v, ok := vok(user.Id); ok %}a{% endif %}`, `<{% if h, ok := __testUserNextHistory999(user.Finance); ok %}{%= h.Cost %}{% else %}none:{%= h %}{% endif %}>`,
+		`{% if v, ok := vok(user.Id); ok %}{%= v %}{% else %}{%= v %}{% endif %}{% if v == "x" %}a{% endif %}`,
 		`{% jsonquote %}{% htmlescape %}{% urlencode %}<"&{%= user.Id %}{% endjsonquote %}x{% endurlencode %}y{% endhtmlescape %}z`, `{% endjsonquote %}{% endhtmlescape %}a"<`,
 		`{% break %}`, `{% lazybreak 3 %}`, `{% continue %}`, `{% exit %}a`, `a{% break 2 if user.Id == "x" %}b`,
 	}
